@@ -36,6 +36,7 @@ func corrC12(r *Run) {
 		"messages on both sides of 140); non-trivial = distinct (type, value) with at least one field beyond the header; distinct by canonical value text"
 	ts := pduTypes()
 	n := r.N(24, 600) // per type
+	bigBudget := r.N(25, 600) // values whose term is tens of KiB are slow to parse inside coqc: a fixed number per run
 	for _, t := range ts {
 		for i := 0; i < n; i++ {
 			mode := modeWild
@@ -89,7 +90,12 @@ func corrC12(r *Run) {
 						"first four octets = octets written = returned count")
 				}
 			}
-			marshalCase(r, t, term, err, panicked, w)
+			if len(term) < 12000 || bigBudget > 0 {
+				if len(term) >= 12000 {
+					bigBudget--
+				}
+				marshalCase(r, t, term, err, panicked, w)
+			}
 		}
 	}
 	// failing destination: an error from Write is reported, still no panic
